@@ -68,26 +68,33 @@ Proof.
   - destruct et as [e|e|q e]; cbn; try reflexivity. apply IH.
 Qed.
 
-(** * Refutations: the current code accepts documents that violate an implemented rule *)
+(** * Former blind spots of check, all repaired in /repo: the witnesses are now flagged *)
 
-Lemma unspread_fragment_refuted :
-  check_operation_document w_schema_0 w_doc_0 = [] /\ rule_ok w_schema_0 w_doc_0 R_fields_exist = false.
-Proof. split; vm_compute; reflexivity. Qed.
+(** commit c67e45e: a fragment that no operation spreads is checked on its own (corpus document 0; document 25: argument
+    errors, a cycle and an unknown field inside unspread fragments are reported, uses of variables are not) *)
+Lemma unspread_fragment_now_flagged :
+  (exists p i, check_operation_document w_schema_0 w_doc_0 = [mkErr (FieldNotFound (s "nonexistent") (s "A")) p i])
+  /\ map (fun e => match e_msg e with
+                   | UnknownArgument _ => 1 | RecursingFragmentSpread _ => 2 | FieldNotFound _ _ => 3
+                   | TypeMismatch _ => 4 | UnknownVariable _ => 5 | _ => 0 end)
+         (check_operation_document w_schema_0 w_doc_25) = [1; 2; 3; 4].
+Proof. split; [do 2 eexists|]; vm_compute; reflexivity. Qed.
 
-(** fixed in /repo (commit 762f951): a fragment whose type condition is the enclosing interface used to be skipped;
-    the two former witnesses are now flagged *)
+(** commit 762f951: a fragment whose type condition is the enclosing interface used to be skipped *)
 Lemma same_interface_now_flagged :
   (exists p i, check_operation_document w_schema_0 w_doc_1 = [mkErr (FieldNotFound (s "nonexistent") (s "I")) p i])
   /\ length (check_operation_document w_schema_0 w_doc_2) = 2.
 Proof. split; [do 2 eexists|]; vm_compute; reflexivity. Qed.
 
-Lemma custom_scalar_variable_refuted :
-  check_operation_document w_schema_0 w_doc_3 = [] /\ rule_ok w_schema_0 w_doc_3 R_vars_defined = false.
-Proof. split; vm_compute; reflexivity. Qed.
+(** commit 49e8e28: variables inside a literal given for a custom scalar have to be defined *)
+Lemma custom_scalar_variable_now_flagged :
+  exists p i, check_operation_document w_schema_0 w_doc_3 = [mkErr (UnknownVariable (s "nope")) p i].
+Proof. do 2 eexists. vm_compute. reflexivity. Qed.
 
-Lemma duplicate_argument_refuted :
-  check_operation_document w_schema_0 w_doc_4 = [] /\ rule_ok w_schema_0 w_doc_4 R_literal_types = false.
-Proof. split; vm_compute; reflexivity. Qed.
+(** commit 7d19234: every value given for an argument is type-checked *)
+Lemma duplicate_argument_now_flagged :
+  exists t p i, check_operation_document w_schema_0 w_doc_4 = [mkErr (TypeMismatch t) p i].
+Proof. do 3 eexists. vm_compute. reflexivity. Qed.
 
 (** fixed in /repo (commit 556742c): Int literals outside the signed 32-bit range are rejected; the boundary values
     are accepted, and Float / ID arguments take any integer literal (corpus document 17: exactly two errors) *)
@@ -106,12 +113,6 @@ Lemma fields_can_merge_not_checked :
   /\ check_operation_document w_schema_0 w_doc_19 = [] /\ fields_can_merge_ok w_schema_0 w_doc_19 = false
   /\ fields_can_merge_ok w_schema_0 w_doc_14 = true.
 Proof. repeat split; vm_compute; reflexivity. Qed.
-
-(** the same documents satisfy every rule on the visible sites: the guard of the theorems below is exactly
-    what separates them *)
-Example blind_spots_are_outside_the_visible_sites :
-  forallb (fun D => forallb (rule_ok_vis w_schema_0 D) all_rules) [w_doc_0; w_doc_3; w_doc_4] = true.
-Proof. vm_compute. reflexivity. Qed.
 
 (** * The walk over the definitions *)
 
@@ -134,6 +135,7 @@ Lemma check_document_nil S D :
     check_definition (doc_fuel D) S (doc_frags D) (length (filter is_op (od_defs D))) l1 d = [].
 Proof.
   intros H l1 d l2 E. unfold check_operation_document, check_operation_document_fuel in H.
+  apply app_nil_inv in H as [H _].
   exact (check_definitions_nil _ _ _ _ _ _ H l1 d l2 E).
 Qed.
 
@@ -297,7 +299,7 @@ Lemma check_operation_nil fuel S fm o :
                 | Some i => iname i | None => default_root_name (op_type o) end) = Some root
     /\ check_directives S (op_vars o) (op_location (op_type o)) (op_dirs o) = []
     /\ match op_vars o with Some vs => check_variables_definition S vs | None => [] end = []
-    /\ (optype_eqb (op_type o) Subscription && Nat.ltb 1 (count_fields fuel fm [] (op_sel o)) = false)
+    /\ (optype_eqb (op_type o) Subscription && Nat.ltb 1 (length (collect_response_keys fuel fm [] (op_sel o) [])) = false)
     /\ check_selection_set fuel S fm (op_vars o) [] root (op_sel o) = [].
 Proof.
   unfold check_operation. intros H.
@@ -308,7 +310,7 @@ Proof.
   - destruct (get_type S _) as [root|] eqn:Er; [|discriminate].
     exists root. apply app_nil_inv in H as [H1 H]. apply app_nil_inv in H as [H2 H].
     apply app_nil_inv in H as [H3 H4]. repeat split; auto.
-    destruct (optype_eqb (op_type o) Subscription && Nat.ltb 1 (count_fields fuel fm [] (op_sel o))); [discriminate | reflexivity].
+    destruct (optype_eqb (op_type o) Subscription && Nat.ltb 1 (length (collect_response_keys fuel fm [] (op_sel o) []))); [discriminate | reflexivity].
 Qed.
 
 (** ** variables are uniquely named and of input types *)
